@@ -60,12 +60,12 @@ def main(argv):
     orig_check = z3.Solver.check
 
     def counting_check(self, *a):
-        t = time.time()
+        t = time.perf_counter()
         try:
             return orig_check(self, *a)
         finally:
             counters['checks'] += 1
-            counters['solver_s'] += time.time() - t
+            counters['solver_s'] += time.perf_counter() - t
     z3.Solver.check = counting_check
     import crosshair.statespace as ss
     orig_init = ss.StateSpace.__init__
